@@ -92,7 +92,41 @@ def c_torch_history(ctx, args):
     return None
 
 
-CHECKS = {'respecify': __import__('props.C09', fromlist=['c_respecify']).c_respecify, 'torch_history': c_torch_history, 'roundtrip': c_roundtrip, 'backward_corr': c_backward_corr, 'maps_corr': c_maps_corr}
+def c_layer_roundtrip(ctx, args):
+    """a LAYER used on its own -- built from disjoint gates, compiled, then given one more disjoint gate (and optionally compiled again) -- acts forward as its gates one at a
+    time, and backward undoes forward"""
+    N, gates, extra, l, recompile, be = args
+    if be == 'np':
+        from pyclifford import circuit as CI_
+        M = NP
+    else:
+        import torchclifford.circuit as CI_, vlib.impl_torch as M
+    try:
+        ly = CI_.CliffordLayer(*[M.mk_gate(g) for g in gates])
+        ly.compile(N)
+        if extra is not None:
+            ly.take(M.mk_gate(extra))
+        if recompile:
+            ly.compile(N)
+        o = M.PL(l)
+        ly.forward(o)
+        fwd = M.oPL(o)
+        ly.backward(o)
+        back = M.oPL(o)
+    except Exception as e:
+        return {'kind': 'oracle', 'where': '%s:layer compile / take / run raised %s' % (be, type(e).__name__), 'observed': str(e)[:120], 'expected': 'rows', 'tags': ['layer', be]}
+    ref = NP.PL(l)
+    for g in gates + ([extra] if extra is not None else []):
+        NP.mk_gate(g).forward(ref)
+    # (without a fresh compile() the layer may still run its old compiled maps: documented; then only the round trip is claimed)
+    if (recompile or extra is None) and fwd != NP.oPL(ref):
+        return {'kind': 'oracle', 'where': '%s:a compiled layer that took one more gate does not act as its gates (forward)' % be, 'observed': fwd, 'expected': NP.oPL(ref), 'tags': ['layer', be]}
+    if back != [[a[0], a[1] % 4] for a in l]:
+        return {'kind': 'oracle', 'where': '%s:layer backward after forward does not restore the operand (compiled, then one more gate)' % be, 'observed': back, 'expected': l, 'tags': ['layer', be]}
+    return None
+
+
+CHECKS = {'layer_roundtrip': c_layer_roundtrip, 'respecify': __import__('props.C09', fromlist=['c_respecify']).c_respecify, 'torch_history': c_torch_history, 'roundtrip': c_roundtrip, 'backward_corr': c_backward_corr, 'maps_corr': c_maps_corr}
 
 
 def run(ctx):
@@ -133,6 +167,15 @@ def run(ctx):
         if it % 3 == 0:
             do(ctx, 'maps_corr', [N, prog], nontrivial=('m', it))
         ctx.res.count('mode%d_%s_%s' % (mode, cls, d))
+    for it in range(int(40 * B)):
+        N = rng.randint(2, 5)
+        qs_ = list(range(N))
+        rng.shuffle(qs_)
+        cut = rng.randint(1, N - 1)
+        mkg = lambda q: [[q], [0, [list(rng.choice([(1, 0), (0, 1), (1, 1)])), rng.choice([0, 2])]]] if rng.random() < 0.6 else [[q], [2, rng.choice([0, 1, 2, 3, 4])]]
+        gates = [mkg(q) for q in sorted(qs_[:cut])[:rng.randint(1, cut)]]
+        extra = mkg(qs_[cut]) if it % 4 else None
+        do(ctx, 'layer_roundtrip', [N, gates, extra, gen.rplist(rng, N, 4), it % 3 == 0, ['np', 'np', 'torch'][it % 3 if it % 2 else 0]], nontrivial=('lr', it))
     # gates whose data is given again -- or whose generator object is updated in place by its owner -- after they were used: backward still undoes forward
     for it in range(int(40 * B)):
         N = rng.randint(1, 4)
